@@ -124,7 +124,7 @@ def job_add_noise(T, Fc, ntype, prior):
         recs.append(q(name, r))
         if r == 'sat':
             mf = lambda t: core.model_float(m, t)
-            pl2 = dict(pl, x_mean=mf(xm), x_std=mf(xs), x_min=mf(xmin))
+            pl2 = dict(pl, x_mean=mf(xm), x_std=mf(xs), x_min=mf(xmin), df=mf(df), dt=mf(dt))
             recs.append(cex(f"C11:add_noise:{ntype}:{'floor' if ntype == 'truncated' else 'value'}", f'{ntype} noise: value / floor / returned==added / estimates obligation fails', pl2, name=name))
         # re-estimate made exactly when this is not the first noise (set_to_param decided on symbolic estimates forks)
         if not first:
@@ -308,13 +308,16 @@ def job_quadrature(seq):
 # ------------------------------------------------------------------ concrete oracles
 def replay_add_noise(p):
     import setigen as stg
-    fr = stg.Frame(fchans=64, tchans=64, df=2.0, dt=4.0, fch1=4096.0, seed=17)
+    gdf, gdt = abs(p.get('df', 2.0)) or 2.0, abs(p.get('dt', 4.0)) or 4.0
+    fr = stg.Frame(fchans=64, tchans=64, df=gdf, dt=gdt, fch1=4096.0, seed=17)
     xm, xs, xmin = p.get('x_mean', 3.0), abs(p.get('x_std', 1.0)) or 1.0, p.get('x_min', 2.5)
     if p['prior'] == 'content':
         fr.add_noise(5.0)
     before = fr.data.copy()
-    k = 4 * round(2.0 * 4.0)
+    k = 4 * round(gdf * gdt)
     msgs = []
+    if fr.chi2_df != k:
+        msgs.append(f'degrees of freedom {fr.chi2_df} for df*dt={gdf * gdt!r}, expected 4*round(df*dt)={k}')
     if p['ntype'] == 'chi2':
         n = fr.add_noise(xm)
         ref = np.random.default_rng(17)
